@@ -163,18 +163,26 @@ def run(ctx):
                  f"{s.func.short} evaluates completion outside 'a final state was just entered'", s.call)
         dc = r.done_check
         comps = self_calls_in(dc, "_complete")
-        c.expect("R5", f"_complete calls in {dc.short}", len(comps), 2, dc, f"{dc.short} no longer completes the machine on both output paths (machine-level output / final state's own output)")
-        for call in comps:
-            uses_machine_output = "machine_output" in norm(call)
+        c.expect("R5", f"_complete calls in {dc.short}", len(comps), 1, dc, f"{dc.short} no longer completes the machine when a top-level final state is entered")
+        # output precedence, as a fact about the two producers of the output (whether they sit in two _complete() calls or in one
+        # conditional expression): the machine-level output is used exactly when it is given, the final state's own otherwise
+        producers = [x for x in own_nodes(dc.node) if isinstance(x, ast.Call) and isinstance(x.func, ast.Attribute) and x.func.attr in ("_resolve_output_value", "_resolve_output")
+                     and any(y is x for cc in comps for y in ast.walk(cc))]
+        kinds = {("machine" if "machine_output" in norm(x) else "state") for x in producers}
+        c.expect("R5", f"output producers under _complete in {dc.short}", len(kinds), 2, dc,
+                 f"{dc.short} no longer completes the machine on both output paths (machine-level output / final state's own output)")
+        for x in producers:
+            uses_machine_output = "machine_output" in norm(x)
             pol = None
-            for a, pl in guards_at(dc, call):
+            for a, pl in guards_at(dc, x):
                 cp = compare_parts(a)
-                if cp and "machine_output" in norm(cp[0]) and isinstance(cp[1], ast.IsNot):
-                    pol = pl
+                if cp and "machine_output" in norm(cp[0]) and isinstance(cp[1], (ast.IsNot, ast.Is)) and isinstance(cp[2], ast.Constant) and cp[2].value is None:
+                    pol = pl if isinstance(cp[1], ast.IsNot) else (not pl)
             ok = pol is not None and pol == uses_machine_output
             c.ob("R5", ok, dc, f"machine-output-precedence:{'machine' if uses_machine_output else 'state'}",
                  "machine-level output takes precedence over the final state's output" if ok else
-                 "the _complete() calls are not split on 'machine_output is not None': output precedence is wrong", call)
+                 "the output handed to _complete() is not chosen by 'machine_output is not None': output precedence is wrong", x)
+        for call in comps:
             top = any("parent is self.machine" in norm(a) or "parent is None" in norm(a) for a, pl in guards_at(dc, call) if pl)
             c.ob("R5", top, dc, "complete-only-top-level", "only a final child of the root completes the machine" if top else
                  "_complete() is reachable for a final state that is not a child of the root", call)
